@@ -399,6 +399,23 @@ pub fn unique_name(prefix: &str) -> String {
   )
 }
 
+static PANIC_LOG: std::sync::Mutex<Vec<String>> = std::sync::Mutex::new(Vec::new());
+
+/// called by the process-wide panic hook
+pub fn note_panic(place: String) {
+  if let Ok(mut g) = PANIC_LOG.lock() {
+    g.push(place);
+  }
+}
+
+pub fn panics_so_far() -> usize {
+  PANIC_LOG.lock().map(|g| g.len()).unwrap_or(0)
+}
+
+pub fn panics_since(n: usize) -> Vec<String> {
+  PANIC_LOG.lock().map(|g| g.iter().skip(n).cloned().collect()).unwrap_or_default()
+}
+
 async fn wait_handshake(m: &rzmq::socket::events::MonitorReceiver, total: Duration) -> &'static str {
   let t0 = Instant::now();
   while t0.elapsed() < total {
@@ -635,7 +652,25 @@ async fn hostile(p: &[&str]) -> String {
   let push = ctx.socket(SocketType::Push).unwrap();
   let _ = set_i32(&push, o::SNDTIMEO, 3000).await;
   let mut verdict = "survived=ok".to_string();
-  if let Err(e) = push.connect(&ep).await {
+  let secured = ["curve", "noise", "plain"].iter().any(|k| cfg.get(*k).map(|v| v == "1").unwrap_or(false));
+  if secured {
+    // an ordinary PUSH is not admitted by this server: it has survived if it still greets a newcomer
+    let greeted = async {
+      let mut st = TcpStream::connect(ep.trim_start_matches("tcp://")).await.ok()?;
+      let mut buf = vec![0u8; 64];
+      let mut n = 0;
+      while n < 10 {
+        match st.read(&mut buf[n..]).await {
+          Ok(0) | Err(_) => return None,
+          Ok(k) => n += k,
+        }
+      }
+      Some(())
+    };
+    if !matches!(tokio::time::timeout(Duration::from_secs(3), greeted).await, Ok(Some(()))) {
+      verdict = "ORACLE-FAIL key=hostile-peer-kills-socket the listener no longer greets a new connection".into();
+    }
+  } else if let Err(e) = push.connect(&ep).await {
     verdict = format!("ORACLE-FAIL key=hostile-peer-kills-socket connect {}", err_class(&e));
   } else if let Err(e) = push.send(Msg::new()).await {
     // (an empty message: admitted by every MAXMSGSIZE >= 0)
@@ -2439,7 +2474,7 @@ async fn rchurn(p: &[&str]) -> String {
   let rounds: usize = p[2].parse().unwrap();
   let ctx = Context::new().expect("ctx");
   let push = ctx.socket(SocketType::Push).unwrap();
-  let _ = set_i32(&push, o::SNDTIMEO, 300).await;
+  let _ = set_i32(&push, o::SNDTIMEO, 25).await;
   if push.bind("tcp://127.0.0.1:0").await.is_err() {
     return "setup-error bind".into();
   }
@@ -2455,12 +2490,12 @@ async fn rchurn(p: &[&str]) -> String {
     }
     // the first message waits for the connection
     let mut sent = false;
-    for _ in 0..40 {
+    for _ in 0..150 {
       if push.send(Msg::from_vec(vec![round as u8; 600])).await.is_ok() {
         sent = true;
         break;
       }
-      tokio::time::sleep(Duration::from_millis(25)).await;
+      tokio::time::sleep(Duration::from_millis(10)).await;
     }
     if !sent {
       return format!("ORACLE-FAIL key=rchurn round {}: the sender found no connection to send on", round);
